@@ -48,6 +48,14 @@ def run_impl(case):
         if descriptive(e) and isinstance(e, ValueError):
             obs = "shadow refused"
             stats["refused"] = 1
+            # the refusal must be repeatable: the same instance, elaborated again, is refused the same way
+            try:
+                convert(mux, regs)
+                fails.append(("C19", f"Multiplexer layout {[(s, e_) for s, e_, _ in layout]} shadow_overlaps={ov}: refused the first time, elaborates the second time", 0))
+            except Exception as e2:
+                if type(e2) is not type(e) or str(e2) != str(e):
+                    fails.append(("C19", f"Multiplexer layout {[(s, e_) for s, e_, _ in layout]} shadow_overlaps={ov}: first elaboration refused with "
+                                         f"{type(e).__name__}, the second fails with {type(e2).__name__}: {str(e2)[:80]}", 0))
         else:
             obs = f"internal:{type(e).__name__}"
             fails.append(("C19", f"Multiplexer layout {[(s, e) for s, e, _ in layout]} shadow_overlaps={ov}: "
